@@ -409,6 +409,16 @@ func c07Prefixes(w *core.W, j int) {
 				}
 			}
 		}
+		// a quoted string that is still open when the input ends (directly, after more lines that the
+		// open quote swallows, or inside the text a $GENERATE expands to)
+		if j == len(ls) {
+			for _, t := range []struct{ typ, pre string }{{"TXT", ""}, {"SPF", ""}, {"AVC", ""}, {"NINFO", ""}, {"HINFO", ""}, {"HINFO", "\"cpu\" "}, {"ISDN", ""}, {"X25", ""}, {"URI", "10 1 "}, {"CAA", "0 issue "}, {"TXT", "\"first\" "}} {
+				for _, tail := range []string{"\"abc", "\"abc\n", "\"abc\nnext.example. 60 IN A 192.0.2.1\n", "\"", "\"abc def ; no comment\n"} {
+					c07MustError(w, "a.example. 300 IN "+t.typ+" "+t.pre+tail, "unterminated-quote/"+t.typ)
+				}
+				c07MustError(w, "$ORIGIN example.\n$GENERATE 1-3 h$ 300 IN "+t.typ+" "+t.pre+"\"abc$\n", "unterminated-quote/generate/"+t.typ) // three iterations: an odd number of quotes
+			}
+		}
 		// mnemonics of every known type followed by arbitrary tokens
 		k := 0
 		for t, name := range dns.TypeToString {
